@@ -30,17 +30,17 @@ RULE = ('states = distinct (option store, context stack) protocol states + disti
         'schedule points executed; traces = executions compared with the reference model / the solo run; non-trivial = distinct '
         'protocol states with a non-default store or schedules with >= 1 preemption')
 ASSUMPTIONS = ['each thread edits its own tree', 'PYTHONHASHSEED fixed, no clocks, no I/O']
-BOUNDS = {'quick': 'protocol depth 4 (16 options/requests alphabet); 3 two-thread scenarios: every schedule with <= 1 preemption at every '
+BOUNDS = {'quick': 'protocol depth 3 over the full alphabet (every value of 6 options incl. the defaults and values that compare equal across types, bad requests, calls) + depth 4 over two options; 3 two-thread scenarios: every schedule with <= 1 preemption at every '
                    'pfst function call + every schedule with <= 2 preemptions inside option-store/registry functions; 3-thread '
                    'scenario: all thread orders + <= 1 preemption inside those functions; all 20 op-level interleavings',
-          'thorough': 'protocol depth 5; line-level schedule points with <= 1 preemption for all 4 scenarios; 3-thread scenario with <= 1 '
+          'thorough': 'protocol depth 4 (full alphabet) and 6 (two options); line-level schedule points with <= 1 preemption for all 4 scenarios; 3-thread scenario with <= 1 '
                       'preemption at every call; <= 3 preemptions inside option-store/registry functions'}
 
 # ---------------------------------------------------------------------------------------------------------------------
 # (1) option protocol
 
 OPTS = {'pars': ['auto', False, True], 'trivia': [True, False], 'norm': [False, True], 'docstr': [True, False],
-        'raw': [False, 'auto']}
+        'raw': [False, 'auto'], 'pep8space': [True, 1, False]}  # pep8space: 1 == True compare equal and mean different things
 BAD = [('nosuchoption', 1), ('pars', 'maybe'), ('trivia', 'bogus'), ('docstr', 3), ('to', None)]
 DOCSRC = 'class C:\n    def f(self):\n        """doc\n        more"""\n        return 1'
 
@@ -70,6 +70,9 @@ def probe(fst, persist, explicit=None):
         out.append(f.src)
     except Exception as e:  # noqa: BLE001
         out.append('EXC:' + e.__class__.__name__)
+    f = FST('x = 1', 'exec')
+    f.body.append('def g(): pass', **({'pep8space': kw['pep8space']} if 'pep8space' in kw else {}))
+    out.append(f.src)
     node = persist.body[0].body[0]
     out.append(node.own_src(**({'docstr': kw['docstr']} if 'docstr' in kw else {})))
     return tuple(out)
@@ -79,7 +82,7 @@ _EXPECT = {}
 
 
 def expected_probe(fst, eff):
-    key = tuple(sorted(eff.items(), key=lambda x: x[0]))
+    key = tuple(sorted(((k, repr(v)) for k, v in eff.items()), key=lambda x: x[0]))  # repr: True and 1 are different option values
     if key not in _EXPECT:
         FST = fst.FST
         saved = FST.get_options()
@@ -91,12 +94,16 @@ def expected_probe(fst, eff):
     return _EXPECT[key]
 
 
-def protocol_ops():
+def protocol_ops(sub=None):
     ops = []
     for k, vs in OPTS.items():
-        for v in vs[1:]:
+        if sub and k not in sub:
+            continue
+        for v in vs:  # the default value too: a block / set_options call may name an option with the value it already has
             ops.append(('set', {k: v}))
             ops.append(('enter', {k: v}))
+    if sub:  # deeper histories over a sub-alphabet: value changes and block exits only
+        return ops + [('exit', None), ('exit-exc', None)]
     ops.append(('set', {'pars': False, 'norm': True}))
     ops.append(('enter', {'trivia': False, 'docstr': False}))
     for k, v in BAD:
@@ -107,6 +114,11 @@ def protocol_ops():
     ops += [('exit', None), ('exit-exc', None), ('call', {'pars': False}), ('call', {'trivia': False, 'norm': True}),
             ('reset-own', None)]
     return ops
+
+
+def _exact(d):
+    """options compared with their types (True and 1 are different option values)"""
+    return {k: (type(v).__name__, v) for k, v in d.items()}
 
 
 class Model:
@@ -150,7 +162,7 @@ def run_history(fst, hist, res, cid):
             before = FST.get_options()
             if op == 'set':
                 old = FST.set_options(**arg)
-                if old != {k: before[k] for k in arg}:
+                if _exact(old) != _exact({k: before[k] for k in arg}):
                     return bad('set_options-returned-wrong-old-values', f'old={old}')
             elif op == 'enter':
                 cm = FST.options(**arg)
@@ -167,7 +179,7 @@ def run_history(fst, hist, res, cid):
                     return bad('invalid-option-request-accepted', f'request={arg}')
                 except ValueError:
                     pass
-                if FST.get_options() != before:
+                if _exact(FST.get_options()) != _exact(before):
                     return bad('rejected-option-request-changed-options', f'request={arg}\nbefore={before}\nafter={FST.get_options()}')
             elif op == 'exit':
                 ctxs.pop().__exit__(None, None, None)
@@ -185,14 +197,14 @@ def run_history(fst, hist, res, cid):
                 eff.update(arg)
                 if got != expected_probe(fst, eff):
                     return bad('per-call-option-not-applied', f'call options={arg}\ngot={got}\nwant={expected_probe(fst, eff)}')
-                if FST.get_options() != before:
+                if _exact(FST.get_options()) != _exact(before):
                     return bad('per-call-option-leaked-into-defaults', f'call options={arg}\nafter={FST.get_options()}')
             elif op == 'reset-own':
                 pass
             model.apply(op, arg)
             now = FST.get_options()
-            if now != model.cur:
-                diff = {k: (now.get(k), model.cur.get(k)) for k in set(now) | set(model.cur) if now.get(k) != model.cur.get(k)}
+            if _exact(now) != _exact(model.cur):
+                diff = {k: (now.get(k), model.cur.get(k)) for k in set(now) | set(model.cur) if _exact({0: now.get(k)}) != _exact({0: model.cur.get(k)})}
                 return bad('options-differ-from-model', f'step {step} {op} {arg}: (got, want) {diff}')
             res.traces += 1
             eff = {k: model.cur[k] for k in OPTS}
@@ -210,8 +222,8 @@ def run_history(fst, hist, res, cid):
         FST.set_options(**dflt)
 
 
-def protocol_bfs(fst, depth, part, res):
-    ops = protocol_ops()
+def protocol_bfs(fst, depth, part, res, sub=None):
+    ops = protocol_ops(sub)
     r, M = part
     seen = {Model(defaults(fst)).key()}
     frontier = [[]]
@@ -663,7 +675,9 @@ def run_option_dicts(fst, res):
 def shards(tier):
     out = [{'kind': 'inventory'}, {'kind': 'oplevel'}, {'kind': 'optval'}]
     M = 16
-    out += [{'kind': 'proto', 'depth': 4 if tier == 'quick' else 5, 'part': [r, M]} for r in range(M)]
+    out += [{'kind': 'proto', 'depth': 3 if tier == 'quick' else 4, 'part': [r, M]} for r in range(M)]
+    # deeper over two options (one whose values compare equal across types): named-with-its-current-value, changed inside, left
+    out += [{'kind': 'proto', 'depth': 4 if tier == 'quick' else 6, 'part': [r, 8], 'sub': ['norm', 'pep8space']} for r in range(8)]
     for name in ('block+default', 'set+exc', 'exc+default') + (('block+set+default',) if tier == 'thorough' else ()):
         for r in range(12):  # every schedule with <= 1 preemption at every pfst function call
             out.append({'kind': 'sched', 'scenario': name, 'bound': 1, 'gran': 'call', 'part': [r, 12]})
@@ -701,7 +715,7 @@ def run_shard(desc, tier, res):
 
             def body():
                 try:
-                    protocol_bfs(fst, desc['depth'], tuple(desc['part']), res)
+                    protocol_bfs(fst, desc['depth'], tuple(desc['part']), res, desc.get('sub'))
                 except BaseException as e:  # noqa: BLE001
                     err.append(e)
             th = threading.Thread(target=body)
@@ -710,7 +724,7 @@ def run_shard(desc, tier, res):
             if err:
                 raise err[0]
         else:
-            protocol_bfs(fst, desc['depth'], tuple(desc['part']), res)
+            protocol_bfs(fst, desc['depth'], tuple(desc['part']), res, desc.get('sub'))
     else:
         run_sched(fst, desc['scenario'], desc['bound'], desc['gran'], tuple(desc['part']), res, desc.get('restricted', False))
 
